@@ -7,6 +7,9 @@ import it as well.
 Public API
 ----------
 ioapispecs(**opts)   Hypothesis strategy -> spec (plain dict, see below)
+preps(spec) / prepare(f, spec, prep) / build(spec, prep)
+                     optional source states: 'synced' (default),
+                     ['var-added', 'create'|'copy', name], 'no-tflag'
 build(spec)          -> library file.  route 'disk' returns an open
                         ``ioapi`` (netCDF backed) object: the caller must
                         ``release(f)`` it (vf.libstate, rule R8b) and drop
@@ -332,20 +335,78 @@ def _build_griddesc(spec, withcf):
     return f
 
 
-def build(spec):
-    """library object for a spec.  For route 'disk' the object holds an open
-    netCDF handle (see module docstring)."""
+# ------------------------------------------------------------ source states
+# A freshly built file is "synced": TFLAG has one column per listed
+# variable.  Real sources are not always in that state; `preps` draws and
+# `prepare` applies one of
+#   'synced'                         nothing
+#   ['var-added', 'create'|'copy', name]
+#                                    one more standard-dimension variable is
+#                                    added with createVariable / copyVariable
+#                                    after construction and updatemeta() is
+#                                    NOT called: VAR-LIST/NVARS count it,
+#                                    TFLAG and VAR still have the old width
+#   'no-tflag'                       the TFLAG variable is deleted: the file
+#                                    is timed by SDATE/STIME/TSTEP only (or
+#                                    by the CF time variable of griddesc_cf)
+# For route 'disk' the state is applied before the file is saved.  The
+# decoded times of the source (getTimes) are the same in all three states.
+ADDED_NAME = 'ADDED_LATER'
+
+
+@st.composite
+def preps(draw, spec=None):
+    k = draw(st.integers(0, 5))
+    if k <= 1:
+        return 'synced'
+    if k <= 3:
+        return ['var-added', draw(st.sampled_from(['create', 'copy'])),
+                ADDED_NAME]
+    return 'no-tflag'
+
+
+def prep_kind(prep):
+    if prep is None or prep == 'synced':
+        return 'synced'
+    return prep if isinstance(prep, str) else prep[0]
+
+
+def prepare(f, spec, prep):
+    """put an in-memory file into the source state `prep` (see above)"""
+    kind = prep_kind(prep)
+    if kind == 'synced':
+        return f
+    if kind == 'no-tflag':
+        del f.variables['TFLAG']
+        return f
+    if kind == 'var-added':
+        how, name = prep[1], prep[2]
+        first = spec['vars'][0]
+        if how == 'copy':
+            f.copyVariable(f.variables[first], key=name)
+        else:
+            v = f.createVariable(name, 'f', STD_DIMS[spec['ftype']],
+                                 units='ppbV')
+            v[...] = data_of(spec, first) + 1
+        return f
+    raise ValueError('unknown prep %r' % (prep,))
+
+
+def build(spec, prep=None):
+    """library object for a spec, optionally put into the source state
+    `prep` (see preps/prepare; default: as constructed).  For route 'disk'
+    the object holds an open netCDF handle (see module docstring)."""
     route = spec['route']
     if route == 'arrays':
-        return _build_arrays(spec)
+        return prepare(_build_arrays(spec), spec, prep)
     if route == 'griddesc':
-        return _build_griddesc(spec, False)
+        return prepare(_build_griddesc(spec, False), spec, prep)
     if route == 'griddesc_cf':
-        return _build_griddesc(spec, True)
+        return prepare(_build_griddesc(spec, True), spec, prep)
     if route == 'disk':
         from . import libstate
         import PseudoNetCDF as pnc
-        mem = _build_arrays(spec)
+        mem = prepare(_build_arrays(spec), spec, prep)
         path = libstate.scratch_path('.nc')
         out = mem.save(path, format='NETCDF3_CLASSIC', verbose=0)
         out.close()
